@@ -62,11 +62,11 @@ theorem addInstances_carried (w : W) (inst : List (List Nat)) (hw : Inv w) (hi :
     exact Or.inl ⟨List.eq_nil_of_length_eq_zero h0, rfl⟩
   · rename_i h0
     simp only
-    have hv0 := vecsOK_inst inst hi (fun t => t.take 3) 3 (fun t ht => ⟨by simp [ht], fun x hx => List.mem_of_mem_take hx⟩)
+    have hv0 := vecsOK_inst inst hi (fun t => t.take 3) 3 (fun t ht => ⟨by simp [ht], fun x hx => List.mem_of_mem_take hx⟩) (fun h => by cases h)
     have hv1 := vecsOK_inst inst hi (fun t => (t.drop 3).take 3) 3
-      (fun t ht => ⟨by simp [ht], fun x hx => List.mem_of_mem_drop (List.mem_of_mem_take hx)⟩)
+      (fun t ht => ⟨by simp [ht], fun x hx => List.mem_of_mem_drop (List.mem_of_mem_take hx)⟩) (fun h => by cases h)
     have hv2 := vecsOK_inst inst hi (fun t => (t.drop 6).take 4) 4
-      (fun t ht => ⟨by simp [ht], fun x hx => List.mem_of_mem_drop (List.mem_of_mem_take hx)⟩)
+      (fun t ht => ⟨by simp [ht], fun x hx => List.mem_of_mem_drop (List.mem_of_mem_take hx)⟩) (fun _ t x hx => List.mem_of_mem_take hx)
     have i0 : Inv { w with extUsed := setInsert w.extUsed "EXT_mesh_gpu_instancing" } := inv_congr hw ⟨rfl, rfl, rfl, rfl⟩
     have i1 := inv_writeVec _ i0 .f32 3 _ (Or.inl rfl) hv0
     have i2 := inv_writeVec _ i1 .f32 3 _ (Or.inl rfl) hv1
@@ -230,7 +230,7 @@ theorem addMesh_some (w : W) (name : String) (id : Nat) (m : PMesh) (mat : Optio
 /-- visibility of a model, as in `Scene.visible` -/
 def Vis (s : Scene) (md : Model) : Bool :=
   match s.meshOf md with
-  | some m => m.primitiveCount != 0
+  | some m => !meshSkipped m
   | none => false
 
 theorem visible_eq (s : Scene) : s.visible = s.models.filter (Vis s) := rfl
@@ -260,15 +260,17 @@ theorem addModel_carries (s : Scene) (w w' : W) (md : Model) (hs : SceneOK s) (h
         split at h
         · cases h
         · rename_i r hr
+          have hgate := gate_ok s w md _ r hr
+          have hr := hgate.2
           have hl := lowEq_addModelMaterial s w md r hr
           have hk := addModelMaterial_keepW s w md r hr
           obtain ⟨hld, hsome⟩ := ld_addModelMaterial' s w md r hr
           have h1 : DInv s r.1 := dinv_keep hw (inv_congr hw.inv hl) (ext_of_lowEq hl) hk.2.1 hk.1 hk.2.2.1
           have g1 : Grow w r.1 := ⟨ext_of_lowEq hl, [], by simp [hk.1]⟩
-          obtain ⟨h2, e2, hmf⟩ := dinv_addMesh s r.1 md.name id m r.2 h1 hm hwf
+          obtain ⟨h2, e2, hmf⟩ := dinv_addMesh s r.1 md.name id m r.2 h1 hm hwf (skipped_false hpc).2 (dupFree_pairwise _ _ hgate.1)
           obtain ⟨np2, ms, hms⟩ := nodePart_addMesh r.1 md.name id m r.2
           have g2 : Grow r.1 (addMesh r.1 md.name id m r.2).1 := ⟨e2, ms, hms⟩
-          have hne := addMesh_some r.1 md.name id m r.2 hpc
+          have hne := addMesh_some r.1 md.name id m r.2 (skipped_false hpc).1
           simp only at h
           split at h
           · rename_i hnone; exact absurd hnone hne
@@ -392,11 +394,10 @@ theorem decodeAt_of_accIs {w : W} {i : Nat} {c : Comp} {d n : Nat} {data : List 
   unfold decodeAt
   simp only [W.doc, h1]; exact h5
 
-theorem carries_of_Carries (s : Scene) (w : W) (md : Model) (n : GNode) (h : Carries s w md n)
-    (hk : ∀ m ∈ s.meshHeap, KeysOK m) : carries s w.doc w.buf md n = true := by
-  obtain ⟨h1, h2, h3, h4, ⟨id, mi, gm, mat, a1, a2, a3, ⟨m, p, idx, b1, b2, b3, b4, b5, b6⟩, a5⟩, h6⟩ := h
+theorem carries_of_Carries (s : Scene) (w : W) (md : Model) (n : GNode) (h : Carries s w md n) :
+    carries s w.doc w.buf md n = true := by
+  obtain ⟨h1, h2, h3, h4, ⟨id, mi, gm, mat, a1, a2, a3, ⟨m, p, idx, b1, b2, b3, b4, b5, b6, _, hkeys⟩, a5⟩, h6⟩ := h
   have hmo : s.meshOf md = some m := by unfold Scene.meshOf; rw [a1]; exact b1
-  have hkeys := hk m (List.mem_of_getElem? b1)
   have hmeshes : w.doc.meshes[mi]? = some gm := a3
   unfold carries
   simp only [h1, h2, h3, h4, beq_self_eq_true, Bool.true_and, hmo, a2, hmeshes, b2, b4, b5, Bool.and_eq_true]
@@ -432,9 +433,14 @@ theorem carries_of_Carries (s : Scene) (w : W) (md : Model) (n : GNode) (h : Car
       have l2 : lookup "ROTATION" [("TRANSLATION", a0), ("SCALE", a1'), ("ROTATION", a2')] = some a2' := by simp [lookup]
       simp [l0, l1, l2, decodeAt_of_accIs c0, decodeAt_of_accIs c1, decodeAt_of_accIs c2]
 
-/-- scene hypotheses of `gltf_carries_scene`: well-formed meshes and instances, and within each mesh pairwise different glTF
-    names of the written attributes -/
-def SceneOK3 (s : Scene) : Prop := SceneOK s ∧ ∀ m ∈ s.meshHeap, KeysOK m
+/-- only the two topologies the property speaks about: triangle (0) and point (1).  (Line, line-strip, line-loop and
+    quad meshes are written WITHOUT a mode, i.e. as TRIANGLES — see notes; `carries` only knows `mode = 0 ⇔ point`.) -/
+def TopoOK (s : Scene) : Prop := ∀ m ∈ s.meshHeap, m.topo = 0 ∨ m.topo = 1
+
+/-- scene hypotheses of `gltf_carries_scene`: well-formed meshes and instances, triangle / point topologies.  (Pairwise
+    different glTF attribute names and "a written attribute whenever there are indices" are no longer hypotheses: since
+    fd26630 the writer rejects / skips such meshes, so they follow from acceptance.) -/
+def SceneOK3 (s : Scene) : Prop := SceneOK s ∧ TopoOK s
 
 /-- every node of the final document is the node of a visible model (carrying it) or a light node -/
 theorem scene_nodes_structure (s : Scene) (w : W) (hs : SceneOK s) (h : writeScene s = .ok w) :
@@ -487,7 +493,7 @@ theorem gltf_carries_scene (s : Scene) (w : W) (hs : SceneOK3 s) (h : writeScene
         simp only [List.nil_append] at hn
         obtain ⟨ln, e1, e2, e3, e4, e5, e6, e7⟩ := addLights_carries s.lights w0 hn.scene
         have hg : Grow w0 (s.lights.foldl addLight w0) := ⟨ext_of_lowEq e6, [], by simp [e7]⟩
-        have hz := zip_imp (fun a b hab => carries_of_Carries s _ a b (carries_mono hab hg) hs.2) hn.zip
+        have hz := zip_imp (fun a b hab => carries_of_Carries s _ a b (carries_mono hab hg)) hn.zip
         have hlen : s.visible.length = w0.nodes.length := by rw [visible_eq]; exact zip_length hn.zip
         unfold carriesScene
         simp only [Bool.and_eq_true]
